@@ -136,6 +136,12 @@ class SmtpRelayClient(RelayPoolClient):
         if starttls.is_error() and self.tls_required:
             raise SmtpRelayError.factory(starttls)
 
+    @current_command(b'[TLS]')
+    def _encrypt(self):
+        assert self.client is not None
+        with Timeout(self.command_timeout):
+            self.client.encrypt(self.context)
+
     @current_command(b'AUTH')
     def _authenticate(self):
         assert self.credentials is not None
@@ -153,7 +159,7 @@ class SmtpRelayClient(RelayPoolClient):
     def _handshake(self):
         assert self.client is not None
         if self.tls_immediately:
-            self.client.encrypt(self.context)
+            self._encrypt()
             self._banner()
             self._ehlo()
         else:
